@@ -45,6 +45,16 @@ def castle_gen(name, obs, checks, qmod, **kw):
     return j
 
 
+def ep_gen(name, obs, checks, qmod, **kw):
+    """Mode C: TLC-enumerated en-passant situations (Gen_Ep.tla) run on the library and judged by Trace_Board."""
+    j = {"type": "gen", "name": name, "gen_spec": "Gen_Ep", "driver": "board", "spec": "Trace_Board", "checks": checks,
+         "args": {"common": {"obs": ",".join(obs), "gen-play": "pawnking"}},
+         "params": {"quick": {"gencfg": {"mod": qmod, "rem": 0, "kmod": 8, "krem": 0}, "workers": 8},
+                    "thorough": {"gencfg": {"mod": 6, "rem": 0, "kmod": 1, "krem": 0}, "workers": 16, "xmx": "10g", "timeout": 3600}}}
+    j.update(kw)
+    return j
+
+
 def board_job(name, obs, checks, q, t, variant="release", extra_common=None, **kw):
     common = {"obs": ",".join(obs)}
     if extra_common:
@@ -60,6 +70,7 @@ PROPS = {
         "rule": "states visited by seeded histories (corpus, curated, 960/DFRC starts, constructed builder states; random walks, full subtrees below curated roots); an observation is non-trivial when the position has at least one legal move",
         "assumptions": BOARD_ASSUME,
         "jobs": [
+            ep_gen("ep-cases", ["gen"], ["C01"], 50, seed_offset=3),
             castle_gen("castling-cases", ["gen"], ["C01"], 40),
             chess_model("model-gen", ["WellFormed", "GenExact"], [], MCQ, MCT),
             board_job("gen-magic", ["gen"], ["C01"], {"histories": 500, "subtrees": 80, "deep": 2}, {"histories": 30000, "subtrees": 200, "deep": 30}, sample_kinds=["reset", "gen", "play"]),
@@ -70,6 +81,7 @@ PROPS = {
         "rule": "transitions (position, legal move, successor) recorded along seeded histories; every legal move of every curated root and of the first 2 roots' successors is played",
         "assumptions": BOARD_ASSUME,
         "jobs": [
+            ep_gen("ep-cases", [], ["C02"], 50, seed_offset=17),
             castle_gen("castling-cases", [], ["C02"], 40, seed_offset=13),
             chess_model("model-play", ["WellFormed"], ["SuccOK"], MCQ, MCT),
             board_job("play", [], ["C02"], {"histories": 900, "subtrees": 80, "deep": 3}, {"histories": 60000, "subtrees": 200, "deep": 40}, sample_kinds=["reset", "play"]),
@@ -79,6 +91,7 @@ PROPS = {
         "rule": "every logged state after reset / play / null move; rebuild through the builder must be == ; transposition pairs",
         "assumptions": BOARD_ASSUME,
         "jobs": [
+            ep_gen("ep-cases", ["rebuild"], ["C03", "C09"], 50, seed_offset=23),
             chess_model("model-derived", ["DerivedOK", "CheckersAreAttackers", "FreshEqual"], [], MCQ, MCT),
             board_job("derived", ["rebuild"], ["C03", "C09"], {"histories": 900, "subtrees": 80, "deep": 2, "transpositions": 150}, {"histories": 60000, "subtrees": 200, "deep": 40, "transpositions": 5000}, sample_kinds=["play", "null", "rebuild", "pair"]),
         ],
@@ -88,6 +101,7 @@ PROPS = {
         "rule": "all 64*64*7 move values swept through is_legal on every visited state; non-trivial = state with a legal move",
         "assumptions": BOARD_ASSUME,
         "jobs": [
+            ep_gen("ep-cases", ["islegal"], ["C04"], 80, seed_offset=31),
             castle_gen("castling-cases", ["islegal"], ["C04"], 60, seed_offset=29),
             chess_model("model-islegal", ["IsLegalOK"], [], dict(MCQ, sweep=2), dict(MCT, sweep=2, max_roots=40)),
             board_job("islegal", ["islegal"], ["C04"], {"histories": 500, "subtrees": 80, "deep": 1}, {"histories": 40000, "subtrees": 200, "deep": 30}, sample_kinds=["reset", "islegal"]),
@@ -97,6 +111,7 @@ PROPS = {
         "rule": "both texts of every visited state, re-read through from_fen (both modes) and FromStr, re-formatted; route pairs for == <=> equal text",
         "assumptions": BOARD_ASSUME,
         "jobs": [
+            chess_model("model-text", ["CanonRoundTrip"], [], MCQ, MCT),
             board_job("text", ["text"], ["C07"], {"histories": 600, "subtrees": 80, "transpositions": 100}, {"histories": 50000, "subtrees": 200, "deep": 20, "transpositions": 3000}, sample_kinds=["text", "pair"]),
         ],
         "report": ["C07", "C03"],
@@ -123,7 +138,8 @@ PROPS = {
         "rule": "same_position on pairs (self, predecessor, other clocks, ep cleared, ep set on every accepted file, right dropped, side flipped, non-pawn beside the double-pushed pawn), both argument orders",
         "assumptions": BOARD_ASSUME,
         "jobs": [
-            chess_model("model-same", ["SameAsSelf"], [], MCQ, MCT),
+            ep_gen("ep-cases", ["same"], ["C13"], 100, seed_offset=37),
+            chess_model("model-same", ["SameAsSelf", "SameVsNoEp"], [], MCQ, MCT),
             board_job("same", ["same"], ["C13"], {"histories": 200, "subtrees": 80}, {"histories": 20000, "subtrees": 200, "deep": 10}, sample_kinds=["same"]),
         ],
     },
